@@ -51,7 +51,7 @@ pub fn run_history(rng: &mut Rng, rep: &mut Report) {
     let n = 2 + rng.usize_below(2);
     let sc = ConfigSnapshot::default();
     let probing = rng.chance(1, 2);
-    let opts = StreamOpts { n_links: n, cfg: sc, ticks: 0, probing, faults: Faults::None, retransmit_pct: 0, control_pct: 0, critical_windows: false, big_jumps: false, initial_windows: None, loss_permille: 0, stall_min_in_flight_small: false, echo_fuzz: false, rate_pct: 100 };
+    let opts = StreamOpts { n_links: n, cfg: sc, ticks: 0, probing, faults: Faults::None, retransmit_pct: 0, control_pct: 0, critical_windows: false, big_jumps: false, initial_windows: None, loss_permille: 0, stall_min_in_flight_small: false, echo_fuzz: false, rate_pct: 100, short_sends: false };
     let mut d = Driver::new(opts, rng);
     d.capture_reg = true;
     let mut m = RegMon::new();
